@@ -236,6 +236,8 @@ pub fn root_case(root: &Root, script: Vec<Vec<f64>>) -> PlanCase {
         query_cap: 400_000,
         world2: None,
         space2: None,
+        fault_persists: false,
+        raw_space: false,
     }
 }
 
